@@ -338,6 +338,32 @@ Theorem C15_refresh_below_refuted : forall sync, exists S,
   stored (db S) KC 1 = [Some 5; Some 6; Some 7].
 Proof. exact (@refresh_below_refuted). Qed.
 
+(* Through the object the program holds (nothing fetched in between): sync() / expire() on its instance of level l, then a
+   read of ONE attribute a (own or inherited by l) through the instance of any level l' that has it, shows the stored value --
+   from every reachable state, i.e. whatever part of the chain was loaded, expired or reloaded before; no guard is needed. *)
+Theorem C15_held_refresh : forall auto sync S id k l a l', born_as (db S) id = Some k ->
+  In l (chain k) -> In a (chain l) -> In l' (chain k) -> In a (chain l') ->
+  let S' := fst (istep auto S (hrefresh_op sync id l)) in
+  db S' = db S /\ snd (istep auto S' (HRead id l' a)) = RObj (mkobj id a [val_of (db S) a id]).
+Proof. exact (@held_refresh). Qed.
+(* non-vacuity, a partially reloaded chain: c.expire(); read c.x only (the root's instance reloads, the leaf stays
+   expired); UPDATE ha SET x = 5; without a second expire the read shows 1, after c.expire() it shows 5 *)
+Example C15_example_partial_reload :
+  snd (istep true (irun true iinit w_partial) (HRead 1 KC KA)) = RObj (mkobj 1 KA [Some 1]) /\
+  snd (istep true (fst (istep true (irun true iinit w_partial) (HExpire 1 KC))) (HRead 1 KB KA)) = RObj (mkobj 1 KA [Some 5]) /\
+  born_as (db (irun true iinit w_partial)) 1 = Some KC.
+Proof. exact w_partial_ok. Qed.
+
+(* open finding expired_ancestor_instance_twin without any write behind the ORM: "inherited attributes read the
+   ancestor's row" fails after b = c._parent; b.expire(); HB.get(1); c.y = 17; c.expire(); HC.get(1) *)
+Theorem C15_inherited_read_refuted : exists ops,
+  forallb no_raw ops = true /\ iclean true iinit ops = true /\
+  let S := irun true iinit ops in
+  In (1, KC) (born (db S)) /\
+  snd (istep true S (Old (Get KC 1))) = RObj (mkobj 1 KC [Some 1; Some 1; Some 1]) /\
+  stored (db S) KC 1 = [Some 1; Some 17; Some 1].
+Proof. exact (@twin_refuted). Qed.
+
 (* the witness of the finding fixed by 47d20cb (HC(1,1,1); UPDATE ha SET x = 5; c.sync() or c.expire(); HC.get(1)) now reads x = 5 *)
 Example C15_example_former_witness : forall sync,
   snd (istep true (fst (istep true (irun true iinit w_skip) (refresh_op sync KC 1 KC))) (Old (Get KC 1))) = RObj (mkobj 1 KC [Some 5; Some 1; Some 1]).
@@ -388,3 +414,5 @@ Print Assumptions C15_refresh_partial.
 Print Assumptions C15_refresh_own_level_partial.
 Print Assumptions C15_refresh_inherited_partial.
 Print Assumptions C15_refresh_below_refuted.
+Print Assumptions C15_held_refresh.
+Print Assumptions C15_inherited_read_refuted.
